@@ -84,3 +84,5 @@ func (h *harness) leakCheckFrom(base int, deadline time.Duration) (int, string) 
 		}
 	}
 }
+
+func setProcs(n int) int { return runtime.GOMAXPROCS(n) }
